@@ -54,6 +54,22 @@ def run(facts, rep, tier):
             keyed = re.search(r"\(RefKey::Def\(elem<[^>]*>\.0(\.as_ref\(\)\.to_string\(\)|\.to_string\(\)|\.into\(\)|\.clone\(\))?\), elem<[^>]*>\.1\)", body)
             okm = not dropped and bool(keyed)
             why = "every definition is passed on as (RefKey::Def(key), schema)" if okm else ("definitions are filtered before conversion (`%s`)" % recv[-60:] if dropped else "definitions are re-keyed as `%s`" % body[:100])
+        if not maps and local_calls[0]["fn"] in c.hir:
+            # the keying may live in the shared implementation instead: then the wrapper hands over the definitions themselves
+            # (unfiltered, the key unchanged) and the implementation maps *its parameter* to (RefKey::Def(key), schema)
+            ih = c.hir[local_calls[0]["fn"]]
+            icn = Canon(c, ih, 3)
+            imaps = [n for n, _ in walk(ih["body"]) if n.get("k") == "mcall" and n["name"] == "map" and n.get("args") and n["args"][0].get("k") == "closure" and "RefKey::Def" in src(n["args"][0])]
+            DROP = r"\.(filter|filter_map|skip|take|skip_while|take_while|step_by)\("
+            CONV = r"(\.as_ref\(\)\.to_string\(\)|\.to_string\(\)|\.into\(\)|\.clone\(\))?"
+            if imaps:
+                irecv, ibody = icn.r(imaps[0]["recv"]), icn.r(imaps[0]["args"][0])
+                ikeyed = re.fullmatch(r"\|\.\.\| \(RefKey::Def\(elem<[^>]*>\.0" + CONV + r"\), elem<[^>]*>\.1\)", ibody)
+                from_param = re.fullmatch(r"\$[A-Z]\w*(\.into_iter\(\)|\.iter\(\))?", irecv)
+                passed = re.fullmatch(r"\$\w+(~RootSchema)?(\.definitions)?(\.into_iter\(\)|\.iter\(\))?(\.map\(\|\.\.\| \(elem<[^>]*>\.0" + CONV + r", elem<[^>]*>\.1\)\))?", arg)
+                okm = bool(ikeyed and from_param and passed) and not re.search(DROP, arg) and not re.search(DROP, irecv)
+                why = "the wrapper hands over the definitions unfiltered (`%s`) and the shared implementation keys each as (RefKey::Def(key), schema)" % arg[:60] if okm else \
+                    "the definitions do not reach the shared implementation one for one, keyed RefKey::Def(key): passed `%s`, mapped `%s` over `%s`" % (arg[:80], ibody[:80], irecv[:40])
         rep.ob("C04.W1", "route-passes-every-definition:%s" % h["fn"], okm, why, (maps[0] if maps else h).get("sp"))
     same = len(set(impls.values())) == 1 and len(impls) == len(routes)
     rep.ob("C04.W1", "routes-share-one-implementation", same, "both routes end in %s" % sorted(set(impls.values()))[0] if same else "the routes end in different implementations: %s" % impls)
